@@ -95,6 +95,72 @@ partial def itemsIn : Sexp → Option JItems
   | _ => none
 end
 
+/-! ### why is a case outside `FragJS`? (diagnostic, mirrors `frag`) -/
+
+def firstSomeJ {α} (f : α → Option String) : List α → Option String
+  | [] => none
+  | x :: xs => match f x with | some r => some r | none => firstSomeJ f xs
+
+partial def fragWhy (defs : Defs) (pair : Bool) (s : JS) : Option String :=
+  match s with
+  | .mk a oneOf anyOf allOf props addl items items2020 =>
+    if a.always.isSome then some "boolean-schema" else
+    match a.ref with
+    | some name =>
+      (match lookupDef defs name with
+       | none => some "dangling-ref"
+       | some t =>
+         if targetOK t then none else
+         match t with
+         | .mk ta _ _ _ tprops taddl _ _ =>
+           some ("ref-to:" ++
+             (if ta.ref.isSome then "ref" else if ta.hasOneOf || ta.hasAnyOf then "union" else if ta.hasAllOf then "allOf"
+              else if ta.const.isSome then "const" else if ta.format == "date-time" then "date-time"
+              else if ta.types.length > 1 then "type-array" else if jsIsAny t then "any" else "other")))
+    | none =>
+      let branches (bs : List JS) : Option String :=
+        if !pair then some "union-below-union"
+        else if !pairShape bs then some (if bs.any isNullS then "union-with-null-of-several" else "union")
+        else firstSomeJ (fun b => if isNullS b then none else
+          match fragWhy defs false b with
+          | some r => some r
+          | none => if refToColl defs b then some "nullable-ref-to-collection" else none) bs
+      if a.hasOneOf then branches oneOf
+      else if a.hasAnyOf then branches anyOf
+      else if a.hasAllOf then some "allOf"
+      else match a.enum with
+      | some vs => if enumValsOK vs then none else some "enum-values"
+      | none =>
+        match a.types with
+        | [] => if jsIsAny s || untypedConstOK a addl then none else if a.const.isSome then some "untyped-const" else some "untyped-object"
+        | [t] =>
+          if t = "boolean" ∨ t = "number" ∨ t = "integer" then none
+          else if t = "string" then (if a.pattern.isNone then none else some "pattern")
+          else if t = "array" then
+            (match items, items2020 with
+             | .none, .none => none
+             | .one e, .none => fragWhy defs true e
+             | .none, .one e => fragWhy defs true e
+             | _, _ => some "items-form")
+          else if t = "object" then
+            (if props.isEmpty then (match addl with | .schema e => fragWhy defs true e | _ => none)
+             else if !(match addl with | .bool false => true | _ => false) then some "open-object"
+             else if !sortedKeys props then some "props-not-sorted"
+             else firstSomeJ (fun (p : String × JS) =>
+               match fragWhy defs true p.2 with
+               | some r => some r
+               | none => if a.required.contains p.1 || !refToColl defs p.2 then none else some "optional-ref-to-collection") props)
+          else some ("type:" ++ t)
+        | [t1, t2] =>
+          if !pair then some "type-array-below-union"
+          else if (t1 = "null" && scalarTypeName t2) || (t2 = "null" && scalarTypeName t1) then none else some "type-array-union"
+        | _ => some "type-array-union"
+
+def fragJSWhy (defs : Defs) (root : JS) : String :=
+  match firstSomeJ (fun (d : String × JS) => fragWhy defs true d.2) defs with
+  | some r => r
+  | none => if FragJS defs root then "-" else "root"
+
 structure FrontCase where
   pkg : String
   root : JS
@@ -102,6 +168,7 @@ structure FrontCase where
   model : Outcome Schemas
   modelled : Bool
   frag : Bool
+  notfrag : String
 
 initialize frontStore : IO.Ref (Std.HashMap String FrontCase) ← IO.mkRef {}
 
@@ -125,7 +192,7 @@ def jsfdefLine (rest : String) : IO String := do
       | some (pkg, root, defs) =>
         frontStore.modify (·.insert id
           { pkg := pkg, root := root, defs := defs, model := frontEnd pkg defs frontFuel root,
-            modelled := modelledDefs defs root, frag := FragJS defs root })
+            modelled := modelledDefs defs root, frag := FragJS defs root, notfrag := fragJSWhy defs root })
         return "ok"
   | _ => return "bad-request"
 
@@ -184,7 +251,7 @@ def jsfdocLine (rest : String) : IO String := do
           | .ok m => toString (srcDen (frontFuel + soundSlack) m t j)
           | _ => "err"
         let why := if src then "-" else (srcWhy real (frontFuel + soundSlack) t j).getD "unexplained"
-        return s!"valid={valid} strict={strict} modelled={c.modelled} frag={c.frag} wf={wfDeep j} src={src} msrc={msrc} why={why}"
+        return s!"valid={valid} strict={strict} modelled={c.modelled} frag={c.frag} wf={wfDeep j} src={src} msrc={msrc} why={why} notfrag={c.notfrag}"
     | none, _ => return "unknown-case"
     | _, none => return "unknown-schemas"
   | _ => return "bad-request"
